@@ -257,8 +257,11 @@ class J1939_21:
                             if next_wakeup > buf['deadline']:
                                 next_wakeup = buf['deadline']
                         else:
-                            # done
+                            # done: release the session only after the last packet has been handed to
+                            # the bus, the next broadcast of this source must not overtake it
+                            self.__send_tp_dt(buf['src_address'], buf['dest_address'], data)
                             del self._snd_buffer[bufid]
+                            continue
 
                         # state is updated and ready for recv - now send data
                         self.__send_tp_dt(buf['src_address'], buf['dest_address'], data)
